@@ -15,3 +15,6 @@ func verifFuncName(f lexFn) string {
 	}
 	return n
 }
+
+// VerifGoLiteral exposes goLiteral, the function every static splice site goes through.
+func VerifGoLiteral(s string) string { return goLiteral(s) }
